@@ -1,5 +1,5 @@
 (* C14: evaluation of the model on recorded cases (correspondence check). *)
-From CJ Require Import Common.Base C14.Model.
+From CJ Require Import Common.Base C14.Model C14.LifeModel.
 
 (* a network as the generator wrote it: family, (unmasked) address, prefix length;
    None = a string net.ParseCIDR rejects *)
@@ -44,3 +44,59 @@ Definition show (c : vcase) : N * bytes * bool :=
   | Err _ => (1, [], false)
   | Panic => (2, [], false)
   end.
+
+(* ---------- lifecycle cases: a selection after a history of loads / reloads ---------- *)
+(* a subnet file as the generator wrote it *)
+Definition mk_file (l : list (Z * list group)) : file := l.
+
+Definition fam_or4 (n : N) : family := match fam_of n with Some f => f | None => V4 end.
+
+(* l_f0: the file the station started with; l_loads: what each later reload's load gave (None: failed);
+   then ONE selection; l_obs: what the implementation's entry points returned for it (station, registrar, the
+   selectors loaded freshly from the file in force) *)
+Record lcase := { l_f0 : file; l_loads : list (option file); l_seed : bytes; l_gen : N; l_lv : N; l_fam : N;
+                  l_obs : list obs }.
+
+Definition lmodel (c : lcase) : sres phantom :=
+  let evs := map EReload (l_loads c) ++ [ESelect (l_seed c) (l_gen c) (l_lv c) (fam_or4 (l_fam c))] in
+  match nth_error (fst (station_run (from_file (l_f0 c)) evs)) (length (l_loads c)) with
+  | Some (Some r) => r
+  | _ => Err EFuel
+  end.
+Definition chk_life (c : lcase) : bool := forallb (obs_matches (lmodel c)) (l_obs c).
+Definition show_res (m : sres phantom) : N * bytes * bool :=
+  match m with
+  | Ok p => (0, p_bytes p, p_rand_port p)
+  | Err EFuel => (9, [], false)
+  | Err _ => (1, [], false)
+  | Panic => (2, [], false)
+  end.
+Definition show_life (c : lcase) : N * bytes * bool := show_res (lmodel c).
+
+(* ---------- histories over the selector's API, then one selection ---------- *)
+(* a_init: the generations the selector object was created with (a Go map literal); observed indices returned by
+   AddGeneration are compared as well (a_idx: one per AAdd of the history, in order) *)
+Record acase := { a_init : list (N * list group); a_ops : list aop; a_idx : list N;
+                  a_seed : bytes; a_gen : N; a_lv : N; a_fam : N; a_obs : list obs }.
+
+Definition init_selector (l : list (N * list group)) : selector :=
+  fold_left (fun s kc => sset s (fst kc) (Some (snd kc))) l [].
+Definition amodel (c : acase) : list aout :=
+  fst (arun (init_selector (a_init c)) (a_ops c ++ [ASelect (a_seed c) (a_gen c) (a_lv c) (fam_or4 (a_fam c))])).
+Fixpoint idx_of (l : list aout) : list N :=
+  match l with
+  | [] => []
+  | OIdx u :: r => u :: idx_of r
+  | _ :: r => idx_of r
+  end.
+Definition list_N_eqb (a b : list N) : bool :=
+  (length a =? length b)%nat && forallb (fun p => fst p =? snd p) (combine a b).
+Definition chk_api (c : acase) : bool :=
+  let m := amodel c in
+  list_N_eqb (idx_of m) (a_idx c) &&
+  match last m ODone with
+  | OSel r => forallb (obs_matches r) (a_obs c)
+  | _ => false
+  end.
+Definition show_api (c : acase) : list N * (N * bytes * bool) :=
+  let m := amodel c in (idx_of m, match last m ODone with OSel r => show_res r | _ => (9, [], false) end).
